@@ -24,7 +24,7 @@ CLAIMED["C18"] = (
     "compile-fail witness (E0382) + MIR producer/consumer coverage of task queues (R-QUEUE) + must-move path analysis of "
     "popped Box<dyn Task> values (R-LINEAR.task) + examined-Result rule for refusing task sinks (R-SINK) + who-may-call "
     "rule on completion-ordered combinators in sequence-returning APIs (R-SEQ) + dead-error analysis of Result matches (R-ERRDEAD) + increment/decrement pairing on all paths (R-INFLIGHT) + lock-order graph of "
-    "the stealing queues (R-LOCKORDER)",
+    "the stealing queues (R-LOCKORDER) + no lock-guarded accumulator in spawned closures (R-SEQ.shared)",
     "static rules over MIR and a type-level witness: decide that executing a task consumes it, that every queue the "
     "owner can fill is drained on the owner's own path (single-worker liveness), that a task taken out of a queue is "
     "run/returned/re-queued on every path, that a refused task is noticed, that Vec-returning APIs do not collect in "
@@ -113,7 +113,9 @@ for _pid, _what, _extra_t, _extra_w in (
         "DESIGN.md section 4 %s, section 3 R-GUARD (refusal form), section 10.5" % _pid)
 CLAIMED["C01"] = (
     "MIR lookup-miss discipline on encode paths (R-MISS, incl. truncating clamps), model/framing layout agreement (R-PAIR) and "
-    "sibling agreement of the single-stream fallback test between encoder and decoder (R-SIBLING.fallback)",
+    "sibling agreement of the single-stream fallback test between encoder and decoder (R-SIBLING.fallback), "
+    "verified-prefix rule for match-extension loops of the dictionary coders (R-MATCHVERIFY), no lock-guarded accumulator in "
+    "parallel block encoders (R-SEQ.shared)",
     "static rules over MIR: the miss edge of every code lookup on an encode path must reach Err / a fallback lookup before the "
     "next iteration or a normal return (all-zero table entries count as the unset marker); serialize/deserialize pairs of the "
     "entropy models agree on widths and order",
@@ -123,7 +125,7 @@ CLAIMED["C02"] = (
     "MIR layout-event agreement per match-type arm at byte and bit level (R-PAIR), tag->variant tables, store/load path symmetry "
     "with devirtualisation of dyn fields by who-may-write (R-SYM), tag/payload-kind correlation over framing sites (R-TAGKIND), "
     "cleared-before-use analysis of scratch vectors up the private call chain with loop membership (R-SCRATCH), continuation threshold "
-    "of LEB128 size-field writers (R-VARINT.threshold), def-use provenance of decompression bounds (R-CAPSRC)",
+    "of LEB128 size-field writers (R-VARINT.threshold), def-use provenance of decompression bounds (R-CAPSRC), no lock-guarded accumulator in parallel closures (R-SEQ.shared)",
     "static rules over MIR: per CompressionType arm the writer's operand layout equals the reader's; tag k decodes to the variant "
     "with discriminant k; every compress path (incl. raw fallback) has an inverse path in decompress for every impl Compressor and "
     "the hybrid / real-time front ends",
@@ -135,7 +137,8 @@ CLAIMED["C03"] = (
     "content flow of persistent fields (R-FLOW), header layout agreement (R-PAIR), batch-vs-single effect agreement (R-SIBLING.batch), "
     "wrapper delegation to the inner store (R-DELEGATE), field restoration in derive-generated deserialisers (R-FLOW.serde), "
     "flag/payload-kind correlation over gated record construction sites (R-TAGKIND.record), def-use provenance of decompression bounds "
-    "(R-CAPSRC), neighbour location of the pair accessor (R-PAIRACCESS)",
+    "(R-CAPSRC), neighbour location of the pair accessor (R-PAIRACCESS), size_hint provenance (R-HINT), stable-sort "
+    "who-may-call on the trie-store builder (R-STABLE), collected-fields-read-on-finish for bulk builders (R-FLOW.builder)",
     "static rules over MIR: what put applies get inverts on every put path; save/load carry the content of every persistent field; "
     "header writer and reader agree",
     "three structural clauses of C03; id allocation, len/contains/size bookkeeping, offset arithmetic and bitmap logic are not decided",
